@@ -2,10 +2,10 @@
 package main
 
 import (
-	"runtime/pprof"
 	"encoding/json"
 	"fmt"
 	"os"
+	"runtime/pprof"
 
 	"verif/harness/core"
 	"verif/harness/props"
